@@ -1,14 +1,18 @@
 """C30 - compilation is deterministic: same sources + options => byte-identical objects and images,
 whatever the hash seed, the allocator, the heap layout and the earlier compilations of the process.
 
-Explicit exploration of a configuration grid x in-process operation histories.  Every configuration
-is a fresh sub-process (vf/checks/c30_worker.py) started with a fixed minimal environment and ASLR
-off, so that it is itself a deterministic state; inside it histories are explored
-  * from the pristine state by forking (every word of the operation alphabet {P, Q, X} up to a depth),
-  * as one long in-process history (script) in which every (program, target, level) is compiled
-    after two other units, directly after itself, and directly after the same unit for another target.
-The invariant at every compile operation: serialized object text and linked image are byte-identical
-to the reference (first compilation of that unit in the reference configuration seed 0 / pymalloc / pad 0).
+Explicit exploration of a configuration grid x in-process operation histories.  A *state* is
+(unit, target, opt level, configuration, history); a configuration is (PYTHONHASHSEED, allocator, heap padding)
+and is realised as a fresh sub-process (vf/checks/c30_worker.py) started with a fixed minimal environment and
+ASLR off, so that it is itself deterministic; the history is the sequence of compile operations the process
+executed before.  Histories explored:
+  * every word over the operation alphabet {P, Q, X} (P = the unit, Q = another unit, X = the unit for another
+    target) up to a depth, each from a pristine process, for selected units;
+  * long scripts in which every (unit, target, level) is compiled after two other operations, directly after
+    itself, and directly after the same unit for another target;
+  * (thorough) every unit as the very first compilation of a process.
+Invariant checked at every transition (= one api.cc + api.link): ObjectFile.save text and linked image are
+byte-identical to the reference state (first compilation of that unit in configuration seed 0 / pymalloc / pad 0).
 """
 import os
 import json
@@ -19,24 +23,25 @@ import concurrent.futures
 
 ID = "C30"
 LEVEL = "model_checking"
-RULE = ("state = (program, target, opt level, configuration (PYTHONHASHSEED, allocator, heap padding), in-process history); "
-        "transition = one api.cc + api.link; quick: complete sub-grid seeds {0,1} x {pymalloc, malloc} x pad {0,17} over 6 targets, "
-        "thorough: seeds {0..3} x {pymalloc, malloc} x pad {0,1,17,4099} over 10 targets; histories: all words over {P, Q, X} up to "
-        "depth 2 (thorough 3) from the pristine process for selected units, fresh compile of leading (thorough: every) unit, and a "
-        "script giving every unit the contexts after-A-then-B / same-twice / other-target-first; "
-        "distinct non-trivial = distinct (target, level, object digest) of a successfully compiled unit")
+RULE = ("state = (C unit, target, opt level, configuration (PYTHONHASHSEED, allocator, heap padding), in-process history of compile "
+        "operations); quick: complete sub-grid seeds {0,1} x {pymalloc, malloc} x pad {0,17}, 6 targets, 44 units x levels {0,2}, script "
+        "contexts after-two-others / same-twice / other-target-first, plus all depth-2 words over {P,Q,X} ending in P from a pristine "
+        "process; thorough: seeds {0..3} x {pymalloc, malloc} x pad {0,1,17,4099}, 10 targets, 51 units (3 heaviest only in the 8 "
+        "configurations at distance <= 1 from the reference), all words of depth 3 (configurations differing from the reference in the "
+        "seed only, 2 target pairs) or 2 over {P,Q,X}, every unit as first compilation of a process for 5 targets; distinct non-trivial = distinct (target, level, object digest) of a compiled unit")
 ASSUMPTIONS = [
     "oracle: equality of ObjectFile.save text and of the linked image (save text + image bytes) with the reference state; no model of the compiler is involved",
-    "every configuration process is deterministic: ASLR off (setarch -R), fixed minimal environment, fixed argv/cwd/stdin; the reference configuration is run twice and compared, and every reported divergence is re-run before it is reported",
-    "a fork()ed copy of the pristine process stands for a fresh process of the same configuration",
+    "every configuration process is deterministic: ASLR off (setarch -R), fixed minimal environment, fixed argv/cwd/stdin; the reference "
+    "configuration is run twice and compared, and every divergence is re-run (and must reproduce itself) before it is reported",
     "stage digests come from a ppci ReportGenerator passed as cc(reporter=...) in every state alike (observation only, used to name the locus)",
-    "targets avr, stm8 (C front end raises KeyError 'ir-typ i32' for every unit) and m68k (2 of 102 units compile, several hang) are dropped by name; "
-    "(unit, target) pairs that raise the same error in every state are counted as unsupported, not as violations",
+    "targets avr, stm8 (C front end raises KeyError 'ir-typ i32' for every unit) and m68k (2 of 102 unit/level pairs compile, several hang) "
+    "are dropped by name; (unit, target, level) triples that raise the same error in every state are counted as unsupported, not as violations",
     "link step: fixed two-region layout, no runtime library; a unit needing runtime symbols records the (identical) link error",
+    "debug=True, the c3/other front ends and identity-hash salting (DESIGN 3.8) are not explored",
 ]
 CLAIM = {
-    "text": "for the corpus of C units and every explored configuration and history, object files and linked images are byte-identical",
-    "note": "trusted base: the harness' own determinism (ASLR off, fixed environment), fork as a model of a fresh process",
+    "text": "for the corpus of C/assembly units and every explored configuration and history, object files and linked images are byte-identical",
+    "note": "trusted base: the harness' own determinism (ASLR off, fixed environment); divergences are re-run before they are reported",
     "technique": "configuration-grid x history exploration with byte comparison against a reference state",
     "engine": "K2 configuration grid",
 }
@@ -47,8 +52,10 @@ PYTHON = "/venv/bin/python"
 REF = (0, "pymalloc", 0)
 
 PAIRS = [("arm", "x86_64"), ("riscv", "arm:thumb"), ("riscv:rvc", "or1k"), ("microblaze", "mips"), ("msp430", "xtensa")]
-QUICK_SKIP = {"pressure12", "pressure16", "pressure24", "pressure32", "pressure14c", "pressure20c"}
+QUICK_SKIP = {"pressure12", "pressure16", "pressure24", "pressure32", "pressure10c", "pressure14c", "pressure20c"}
+HEAVY = {"pressure24", "pressure32", "pressure20c"}
 LEVELS = (0, 2)
+ASM = "asm:asm_basic"
 
 
 def _worker_mod():
@@ -57,6 +64,14 @@ def _worker_mod():
     m = importlib.util.module_from_spec(spec)
     spec.loader.exec_module(m)
     return m
+
+
+def family(t):
+    return t.split(":")[0]
+
+
+def cfg_str(c):
+    return "seed=%d/%s/pad=%d" % tuple(c)
 
 
 # ------------------------------------------------------------------ the explored grid
@@ -68,87 +83,86 @@ def configs(tier):
         seeds, mallocs, pads = (0, 1, 2, 3), ("pymalloc", "malloc"), (0, 1, 17, 4099)
     out = [(s, m, p) for s in seeds for m in mallocs for p in pads]
     # simplest first: fewest coordinates away from the reference
-    out.sort(key=lambda c: (sum(1 for a, b in zip(c, REF) if a != b), c[0], c[1] != "pymalloc", c[2]))
+    out.sort(key=lambda c: (distance(c), c[0], c[1] != "pymalloc", c[2]))
     assert out[0] == REF
     return out
 
 
-HEAVY = {"pressure24", "pressure32", "pressure20c"}
-PATTERNS = {"aab": "aab", "aabba": "aabba"}
+def distance(cfg):
+    return sum(1 for a, b in zip(cfg, REF) if a != b)
 
 
-def is_axis(cfg):
-    """Configurations that differ from the reference in at most one coordinate."""
-    return sum(1 for a, b in zip(cfg, REF) if a != b) <= 1
+def script_shard(t, x, progs, pattern, asm):
+    """One long history: per unit and level the operations `pattern` (a = first target of the unit, b = the other;
+    the roles alternate from unit to unit), then the assembly units twice."""
+    return {"t": t, "x": x, "progs": progs, "pat": pattern, "asm": asm}
 
 
-def shards(tier, cfg, programs, asm_families):
-    """Deterministic list of shard descriptors for one configuration (small JSON; expanded by `expand`)."""
+def word_shard(ops):
+    """One short history from the pristine process."""
+    return {"ops": [list(o) for o in ops]}
+
+
+def expand(d):
+    """shard descriptor -> list of operations [unit, target, level]."""
+    if "ops" in d:
+        return [list(o) for o in d["ops"]]
+    t, x = d["t"], d["x"]
+    script = []
+    for n, p in enumerate(d["progs"]):
+        for lvl in LEVELS:
+            a, b = (t, x) if n % 2 == 0 else (x, t)
+            script += [[p, a if ch == "a" else b, lvl] for ch in d["pat"]]
+    for tt in d["asm"]:
+        script += [[ASM, tt, 0], [ASM, tt, 0]]
+    return script
+
+
+def shards(tier, cfg, ci, programs, asm_families):
+    """Deterministic list of shard descriptors (= processes) of configuration number ci."""
     out = []
     if tier == "quick":
         pairs, nchunk, pattern = PAIRS[:3], 2, "aab"
         progs = [p for p in programs if p not in QUICK_SKIP]
-        bfs = {0: 2, 1: 2}          # pair index -> depth of the history tree from the pristine process
-        fresh = 0
     else:
         pairs, nchunk = PAIRS, 4
-        axis = is_axis(cfg)
-        pattern = "aabba" if axis else "aab"
-        progs = [p for p in programs if axis or p not in HEAVY]
-        bfs = {i: (3 if axis else 2) for i in range(len(PAIRS))}
-        fresh = 1
-    chunks = [progs[i::nchunk] for i in range(nchunk)]   # interleaved: every chunk starts simple
-    for pi, (t, x) in enumerate(pairs):
-        for ci, chunk in enumerate(chunks):
-            d = {"t": t, "x": x, "progs": chunk, "levels": list(LEVELS), "fresh": fresh, "bfs": 0, "pat": pattern, "asm": []}
-            if ci == 0:
-                d["bfs"] = bfs.get(pi, 0)
-                d["asm"] = [tt for tt in (t, x) if family(tt) in asm_families]
-            out.append(d)
+        pattern = "aabba" if distance(cfg) <= 1 else "aab"
+        progs = [p for p in programs if distance(cfg) <= 1 or p not in HEAVY]
+    chunks = [progs[i::nchunk] for i in range(nchunk)]   # interleaved: every chunk starts with a simple unit
+    for (t, x) in pairs:
+        for k, chunk in enumerate(chunks):
+            asm = [tt for tt in (t, x) if family(tt) in asm_families] if k == 0 else []
+            out.append(script_shard(t, x, chunk, pattern, asm))
+    # exact short histories from the pristine process
+    if tier == "quick":
+        t, x = pairs[ci % len(pairs)]
+        P, Q, X = ["locals6", t, 0], ["loop_sum", t, 0], ["locals6", x, 0]
+        for first in (P, Q, X):
+            out.append(word_shard([first, P]))
+    else:
+        deep = cfg[1:] == REF[1:]          # the reference and the configurations differing in the hash seed only
+        depth = 3 if deep else 2
+        sel = pairs[:2] if deep else [pairs[ci % len(pairs)]]
+        for (t, x) in sel:
+            P, Q, X = ["phi_web", t, 2], ["locals6", t, 2], ["phi_web", x, 2]
+            for word in itertools.product((P, Q, X), repeat=depth):
+                out.append(word_shard(word))
     return out
 
 
 def fresh_shards(programs):
-    """Thorough, reference configuration only: every unit compiled first-thing in a pristine process."""
+    """Thorough, reference configuration: every unit as the first compilation of a process (at -O2)."""
     out = []
     for (t, x) in PAIRS:
-        for tt in (t, x):
-            for lvl in LEVELS:
-                for i in range(0, len(programs), 26):
-                    out.append({"t": tt, "x": None, "progs": programs[i:i + 26], "levels": [lvl], "fresh": 10 ** 6, "bfs": 0, "noscript": 1})
+        for p in programs:
+            out.append(word_shard([[p, t, 2]]))
     return out
 
 
-def expand(d):
-    """shard descriptor -> (forks, script) for the worker."""
-    if "raw" in d:
-        return d["raw"]["forks"], d["raw"]["script"]
-    t, x, progs, levels = d["t"], d["x"], d["progs"], d["levels"]
-    forks = []
-    if d.get("bfs"):
-        P, Q, X = [progs[1], t, levels[0]], [progs[2], t, levels[0]], [progs[1], x, levels[0]]
-        for word in itertools.product((P, Q, X), repeat=d["bfs"]):
-            forks.append([list(w) for w in word])
-    for p in progs[:d.get("fresh", 0)]:
-        for lvl in levels:
-            forks.append([[p, t, lvl]])
-            if x and not d.get("noscript"):
-                forks.append([[p, x, lvl]])
-    script = []
-    if not d.get("noscript"):
-        for n, p in enumerate(progs):
-            for lvl in levels:
-                a, b = (t, x) if n % 2 == 0 else (x, t)
-                script += [[p, a if ch == "a" else b, lvl] for ch in d.get("pat", "aabba")]
-        for tt in d.get("asm", []):
-            script += [["asm:asm_basic", tt, 0], ["asm:asm_basic", tt, 0]]
-    return forks, script
-
-
 def context_word(seq, j):
-    """History of operation j of a sequence, abstracted relative to that operation: '^' = process start,
-    '..' = earlier operations omitted, then one letter per remembered operation (the last two):
-    P same unit+target+level, L same unit+target other level, X same unit other target, Q other unit same target, O other/other."""
+    """History of operation j, abstracted relative to that operation: '^' = process start, '..' = earlier operations
+    omitted, then one letter per remembered operation (the last two): P same unit+target+level, L same unit+target
+    other level, X same unit other target, Q other unit same target, O other unit other target."""
     cur = seq[j]
     w = ""
     for k in range(max(0, j - 2), j):
@@ -179,12 +193,13 @@ def launch(cfg, d, repo, textfile=None):
     """Run one configuration process over shard d; returns the list of operation records."""
     from vf.core import HarnessError, VERIF
     seed, malloc, pad = cfg
-    forks, script = expand(d)
-    spec = {"repo": repo, "pad": pad, "forks": forks, "script": script}
+    script = expand(d)
+    spec = {"repo": repo, "pad": pad, "script": script}
     env = {"PATH": "/usr/bin:/bin", "PYTHONHASHSEED": str(seed), "PYTHONDONTWRITEBYTECODE": "1", "PYTHONNOUSERSITE": "1"}
     if malloc == "malloc":
         env["PYTHONMALLOC"] = "malloc"
     inner = "exec %s%s -P %s" % ("setarch x86_64 -R " if aslr_off_available() else "", PYTHON, WORKER)
+    # fd 3 = side channel with the stage texts; always open so that both kinds of run are the same state
     inner += ' 3>"$0"' if textfile else " 3>/dev/null"
     r = subprocess.run(["/bin/sh", "-c", inner, textfile or "sh"], input=json.dumps(spec, sort_keys=True).encode(),
                        env=env, cwd=VERIF, stdout=subprocess.PIPE, stderr=subprocess.PIPE)
@@ -193,25 +208,13 @@ def launch(cfg, d, repo, textfile=None):
         try:
             recs.append(json.loads(line))
         except ValueError:
-            raise HarnessError("worker wrote a non-JSON line %r (cfg=%r shard=%s)" % (line[:200], cfg, d.get("t")))
-    expected = len(script) + sum(len(q) for q in forks)
+            raise HarnessError("worker wrote a non-JSON line %r (cfg=%r)" % (line[:200], cfg))
     bad = [x for x in recs if "harness_error" in x]
-    if r.returncode != 0 or not recs or recs[-1].get("done") != expected or bad or len(recs) != expected + 1:
-        raise HarnessError("worker failed cfg=%r shard=%s/%s rc=%s bad=%r stderr=%s"
-                           % (cfg, d.get("t"), d.get("progs", [])[:2], r.returncode, bad[:1], r.stderr.decode()[-400:]))
+    if r.returncode != 0 or not recs or recs[-1].get("done") != len(script) or bad or len(recs) != len(script) + 1:
+        raise HarnessError("worker failed cfg=%r script=%r... rc=%s bad=%r stderr=%s"
+                           % (cfg, script[:2], r.returncode, bad[:1], r.stderr.decode()[-400:]))
     recs.pop()
-    # attach the sequence (for context words / witnesses)
-    for x in recs:
-        x["seq"] = forks[x["i"]] if x["k"] == "f" else script
     return recs
-
-
-def cfg_str(c):
-    return "seed=%d/%s/pad=%d" % c
-
-
-def family(t):
-    return t.split(":")[0]
 
 
 # ------------------------------------------------------------------ comparison
@@ -220,34 +223,33 @@ def outcome_of(rec):
     return rec.get("error") or [rec.get("obj"), rec.get("img")]
 
 
+def describe(rec):
+    if "error" in rec:
+        return "raises " + rec["error"]
+    return "object %s image %s" % (rec["obj"], rec["img"])
+
+
 def first_divergence(ref, got):
-    """(stage, function) of the first stage whose digest differs (or that one side lacks)."""
+    """Name of the first stage whose digest differs (or that one side lacks)."""
     a, b = ref["stages"], got["stages"]
     for x, y in zip(a, b):
         if x != y:
-            return (x[0] if x[0] == y[0] else "%s|%s" % (x[0], y[0])), x[1] or y[1]
+            return x[0] if x[0] == y[0] else "%s|%s" % (x[0], y[0])
     if len(a) != len(b):
         longer = a if len(a) > len(b) else b
-        return longer[min(len(a), len(b))][0], longer[min(len(a), len(b))][1]
-    return None, None
+        return longer[min(len(a), len(b))][0]
+    return None
 
 
 def compare(ref, got):
     """None if `got` satisfies the invariant w.r.t. `ref`, else the locus stage."""
     if outcome_of(ref) == outcome_of(got):
         return None
-    stage, fn = first_divergence(ref, got)
-    if stage is None:
-        stage = "error" if ("error" in ref or "error" in got) else "object"
-    return stage
+    return first_divergence(ref, got) or ("error" if ("error" in ref or "error" in got) else "object")
 
 
 def strip(rec):
-    return {k: v for k, v in rec.items() if k not in ("cpu", "seq")}
-
-
-def ident(rec):
-    return [rec["k"], rec["i"], rec["j"]]
+    return {k: v for k, v in rec.items() if k != "cpu"}
 
 
 # ------------------------------------------------------------------ run
@@ -262,41 +264,40 @@ def run(ctx):
     if not aslr_off_available():
         ctx.assumptions.append("setarch -R unavailable: ASLR could not be switched off; irreproducible configurations are reported as harness errors")
 
-    ref_shards = shards(ctx.tier, REF, programs, asm_families)
-    n_plain = len(ref_shards)
+    ref_shards = shards(ctx.tier, REF, 0, programs, asm_families)
+    tasks = [("refA", REF, d) for d in ref_shards]
     if ctx.tier == "thorough":
-        ref_shards = ref_shards + fresh_shards(programs)
-    tasks = []   # (tag, cfg, descriptor)
+        tasks += [("refA", REF, d) for d in fresh_shards(programs)]
+    # the reference configuration a second time: quick the first script of every target pair, thorough every script
+    seen_pairs = set()
     for d in ref_shards:
-        tasks.append(("refA", REF, d))
-    # the reference configuration is run a second time: quick one shard per target pair, thorough every script shard
-    for si, d in enumerate(ref_shards[:n_plain]):
-        if ctx.tier == "thorough" or d["bfs"]:
+        if "pat" in d and (ctx.tier == "thorough" or d["t"] not in seen_pairs):
+            seen_pairs.add(d["t"])
             tasks.append(("refB", REF, d))
-    for c in cfgs[1:]:
-        for d in shards(ctx.tier, c, programs, asm_families):
-            tasks.append(("cfg", c, d))
+    for ci, c in enumerate(cfgs[1:], 1):
+        tasks += [("cfg", c, d) for d in shards(ctx.tier, c, ci, programs, asm_families)]
 
     prog_rank = {p: i for i, p in enumerate(programs)}
-    prog_rank["asm:asm_basic"] = len(programs)
+    prog_rank[ASM] = len(programs)
     cfg_rank = {c: i for i, c in enumerate(cfgs)}
-    reftab = {}     # (prog, target, level) -> (record, shard descriptor)
+    reftab = {}     # (unit, target, level) -> reference record
     refA = {}       # shard -> records (kept for the refB comparison)
     states = transitions = traces = 0
     unsupported = set()
 
     def check_records(cfg, d, recs):
         nonlocal states, traces
+        seq = expand(d)
         for rec in recs:
             key3 = (rec["prog"], rec["target"], rec["level"])
-            word = context_word(rec["seq"], rec["j"])
+            word = context_word(seq, rec["j"])
             ctx.collect("history_contexts", word)
             states += 1
             ctx.add()
             if key3 not in reftab:
                 if cfg != REF:
                     raise core.HarnessError("no reference for %r" % (key3,))
-                reftab[key3] = (rec, d)
+                reftab[key3] = rec
                 if "obj" in rec:
                     ctx.outcome((rec["target"], rec["level"], rec["obj"]))
                     if len(ctx.samples) < 3 and rec["size"] > 60:
@@ -305,7 +306,7 @@ def run(ctx):
                 else:
                     unsupported.add("%s:%s/O%s %s" % (rec["target"], rec["prog"], rec["level"], rec["error"]))
                 continue
-            ref, rd = reftab[key3]
+            ref = reftab[key3]
             traces += 1
             stage = compare(ref, rec)
             if stage is None:
@@ -316,12 +317,10 @@ def run(ctx):
             ctx.collect("divergent_targets", rec["target"])
             key = "%s/%s" % (family(rec["target"]), stage)
             order = (prog_rank[rec["prog"]] * 100 + cfg_rank[cfg]) * 1000 + min(rec["j"], 999)
-            witness = {"ref": {"cfg": list(REF), "shard": rd, "op": ident(ref)},
-                       "got": {"cfg": list(cfg), "shard": d, "op": ident(rec)},
-                       "unit": list(key3), "stage": stage, "history": word,
-                       "tail": [list(o) for o in rec["seq"][max(0, rec["j"] - 2):rec["j"] + 1]]}
-            what = "%s for %s at -O%s, state [%s, history %s]" % (rec["prog"], rec["target"], rec["level"], cfg_str(cfg), word)
-            ctx.violation(key, what, witness, order=order)
+            j = rec["j"]
+            witness = {"unit": list(key3), "cfg": list(cfg), "stage": stage, "history": word,
+                       "ops": seq[max(0, j - 2):j + 1], "shard": d, "j": j}
+            ctx.violation(key, "%s for %s at -O%s, state [%s, history %s]" % (key3 + (cfg_str(cfg), word)), witness, order=order)
 
     pool = concurrent.futures.ThreadPoolExecutor(max_workers=max(1, core.NPROC))
     try:
@@ -337,13 +336,13 @@ def run(ctx):
                 mine = [strip(r) for r in recs]
                 if mine != refA[dk]:
                     diff = [(a, b) for a, b in zip(refA[dk], mine) if a != b][:1]
-                    raise core.HarnessError("reference configuration is not reproducible (shard %s/%s): %r" % (d["t"], d["progs"][:2], diff))
+                    raise core.HarnessError("reference configuration is not reproducible: %r" % (diff,))
                 ctx.count("reference_ops_rerun_identical", len(recs))
             else:
                 check_records(c, d, recs)
         refA.clear()
-        # every reported divergence is re-run before it is believed (a configuration must reproduce itself);
-        # the re-run also shrinks the witness to the shortest history that still diverges and fetches the texts
+        # every divergence is re-run before it is believed (a configuration must reproduce itself); the re-run
+        # also shrinks the witness to the shortest history that still diverges and fetches the stage texts
         keys = sorted(ctx.violations)
         futs = [(k, pool.submit(settle, ctx.violations[k][2], repo)) for k in keys]
         for k, fut in futs:
@@ -351,8 +350,7 @@ def run(ctx):
             transitions += nops
             if not ok:
                 raise core.HarnessError("divergence %s did not reproduce on re-run (%s): a configuration process is not deterministic" % (k, detail))
-            order, what, _ = ctx.violations[k]
-            ctx.violations[k] = (order, detail, witness)
+            ctx.violations[k] = (ctx.violations[k][0], detail, witness)
     finally:
         pool.shutdown(wait=True, cancel_futures=True)
 
@@ -360,117 +358,91 @@ def run(ctx):
     ctx.transitions = transitions
     ctx.traces = traces
     ctx.note("configurations", [cfg_str(c) for c in cfgs])
-    ctx.note("targets", sorted({t for d in ref_shards for t in (d["t"], d["x"]) if t}))
+    ctx.note("targets", sorted({k[1] for k in reftab}))
     ctx.note("units", len({k[0] for k in reftab}))
     ctx.note("unit_target_level_triples", len(reftab))
     ctx.note("configuration_processes", len(tasks))
     ctx.note("unsupported_unit_target_level_triples", len(unsupported))
     ctx.note("unsupported_examples", sorted(unsupported)[:12])
     if len(reftab) - len(unsupported) < 20:
-        raise core.HarnessError("fewer than 20 units compiled: vacuous")
+        raise core.HarnessError("fewer than 20 unit/target/level triples compiled: vacuous")
 
 
-def raw_side(cfg, ops):
-    return {"cfg": list(cfg), "shard": {"raw": {"forks": [], "script": [list(o) for o in ops]}}, "op": ["s", 0, len(ops) - 1]}
+# ------------------------------------------------------------------ confirming / replaying one divergence
+
+def side(cfg, ops, j=None):
+    """One process of a witness: configuration, its whole script, and the index of the operation looked at."""
+    return {"cfg": list(cfg), "ops": [list(o) for o in ops], "j": len(ops) - 1 if j is None else j}
 
 
-def settle(witness, repo):
-    """Confirm a divergence by re-running it; prefer the shortest history that still diverges.
-    -> (confirmed, one-line description, witness to store, operations executed)"""
-    nops = 0
-    unit = witness["unit"]
-    gcfg = tuple(witness["got"]["cfg"])
-    tail = witness["tail"]
-    cands = [tail[-1:], tail[-2:], tail] if (gcfg != REF) else [tail[-2:], tail]
-    seen = []
-    for ops in cands:
-        if ops in seen or not ops:
-            continue
-        seen.append(ops)
-        w = dict(witness)
-        w["ref"] = raw_side(REF, [unit])
-        w["got"] = raw_side(gcfg, ops)
-        v, detail, n, got = confirm(w, repo)
-        nops += n
-        if v:
-            # the diverging side once more: it must reproduce itself
-            again = launch(gcfg, w["got"]["shard"], repo)
-            nops += len(again)
-            if outcome_of(again[-1]) != outcome_of(got):
-                return False, "state %s gave %s then %s" % (cfg_str(gcfg), describe(got), describe(again[-1])), witness, nops
-            return True, headline(w) + detail, w, nops
-    v, detail, n, got = confirm(witness, repo)
-    nops += n
-    return v, headline(witness) + detail, witness, nops
-
-
-def headline(w):
-    unit = w["unit"]
-    g = w["got"]
-    if "raw" in g["shard"]:
-        hist = " after " + ", ".join("%s@%s/O%s" % tuple(o) for o in g["shard"]["raw"]["script"][:-1]) if len(g["shard"]["raw"]["script"]) > 1 else " as first compilation of the process"
-    else:
-        hist = " at operation %s of shard %s+%s (history %s)" % (g["op"], g["shard"].get("t"), g["shard"].get("x"), w.get("history"))
-    return "cc(%s, %s, opt_level=%s) in [%s]%s differs from the fresh compilation in [%s]: " % (
-        unit[0], unit[1], unit[2], cfg_str(tuple(g["cfg"])), hist, cfg_str(REF))
-
-
-def describe(rec):
-    if "error" in rec:
-        return "raises " + rec["error"]
-    return "object %s image %s" % (rec["obj"], rec["img"])
-
-
-def find(recs, op):
-    for r in recs:
-        if ident(r) == list(op):
-            return r
-    return None
+def run_pair(w, repo):
+    """Run the reference side and the diverging side of a witness with the text side channel.
+    -> (violated, detail, operations executed, last record of the diverging side)"""
+    from vf.core import scratch
+    out = {}
+    with scratch("%s.t%d" % (ID, threading.get_ident())) as d:
+        for name in ("ref", "got"):
+            s = w[name]
+            tf = os.path.join(d, name + ".jsonl")
+            recs = launch(tuple(s["cfg"]), word_shard(s["ops"]), repo, textfile=tf)
+            texts = [json.loads(line) for line in open(tf)][s["j"]]["texts"]
+            out[name] = (recs[s["j"]], texts, len(recs))
+    ref, got = out["ref"][0], out["got"][0]
+    nops = out["ref"][2] + out["got"][2]
+    stage = compare(ref, got)
+    if stage is None:
+        return False, "both give %s" % describe(got), nops, got
+    detail = "%s vs %s; first diverging stage %s" % (describe(got), describe(ref), stage)
+    for x, y in zip(out["ref"][1], out["got"][1]):
+        if x[2] != y[2]:
+            detail += "%s, %s" % (" of '%s'" % x[1] if x[1] else "", first_text_diff(x[2], y[2]))
+            break
+    return True, detail, nops, got
 
 
 def first_text_diff(ta, tb):
     la, lb = ta.splitlines(), tb.splitlines()
     for n, (x, y) in enumerate(zip(la, lb)):
         if x != y:
-            return "line %d: %r vs %r" % (n + 1, x.strip()[:90], y.strip()[:90])
-    return "length %d vs %d lines" % (len(la), len(lb))
+            return "line %d: %r vs %r" % (n + 1, y.strip()[:90], x.strip()[:90])
+    return "%d vs %d lines" % (len(lb), len(la))
 
 
-def confirm(witness, repo):
-    """Run the two processes of a witness with the text side channel.
-    -> (violated, detail, operations executed, record of the diverging side)"""
-    from vf.core import scratch
-    out = {}
-    with scratch("%s.t%d" % (ID, threading.get_ident())) as d:
-        for side in ("ref", "got"):
-            w = witness[side]
-            tf = os.path.join(d, side + ".jsonl")
-            recs = launch(tuple(w["cfg"]), w["shard"], repo, textfile=tf)
-            rec = find(recs, w["op"])
-            texts = None
-            for line in open(tf):
-                t = json.loads(line)
-                if ident(t) == list(w["op"]):
-                    texts = t["texts"]
-            out[side] = (rec, texts, len(recs))
-    ref, got = out["ref"][0], out["got"][0]
-    nops = out["ref"][2] + out["got"][2]
-    if ref is None or got is None:
-        return False, "operation not found in re-run", nops, got
-    stage = compare(ref, got)
-    if stage is None:
-        return False, "both give %s" % describe(got), nops, got
-    detail = "%s vs %s; first diverging stage %s" % (describe(got), describe(ref), stage)
-    ta, tb = out["ref"][1], out["got"][1]
-    if ta and tb:
-        for x, y in zip(ta, tb):
-            if x[2] != y[2]:
-                detail += "%s, %s" % (" of " + x[1] if x[1] else "", first_text_diff(x[2], y[2]))
-                break
-    return True, detail, nops, got
+def headline(w):
+    unit, g = w["unit"], w["got"]
+    before = g["ops"][:g["j"]]
+    hist = (" after " + ", ".join("%s@%s/O%s" % tuple(o) for o in before)) if before else " as first compilation of the process"
+    if len(before) > 3:
+        hist = " as operation %d of a script of %d" % (g["j"], len(g["ops"]))
+    return "cc(%s, %s, opt_level=%s) in [%s]%s differs from the first compilation of a process in [%s]: " % (
+        unit[0], unit[1], unit[2], cfg_str(g["cfg"]), hist, cfg_str(REF))
+
+
+def settle(found, repo):
+    """Confirm a divergence found by the exploration by re-running it, shortest history first.
+    -> (confirmed, one-line description, replayable witness, operations executed)"""
+    nops = 0
+    unit, gcfg, ops = found["unit"], tuple(found["cfg"]), found["ops"]
+    cands = []
+    for c in ([ops[-1:]] if gcfg != REF else []) + [ops[-2:], ops]:
+        if c and side(gcfg, c) not in cands:
+            cands.append(side(gcfg, c))
+    cands.append(side(gcfg, expand(found["shard"]), found["j"]))   # last resort: exactly the process that was observed
+    detail = "?"
+    for g in cands:
+        w = {"unit": unit, "stage": found["stage"], "ref": side(REF, [unit]), "got": g}
+        v, detail, n, got = run_pair(w, repo)
+        nops += n
+        if v:
+            again = launch(gcfg, word_shard(g["ops"]), repo)   # the diverging state once more: it must reproduce itself
+            nops += len(again)
+            if outcome_of(again[g["j"]]) != outcome_of(got):
+                return False, "state [%s] gave %s, then %s" % (cfg_str(gcfg), describe(got), describe(again[g["j"]])), w, nops
+            return True, headline(w) + detail, w, nops
+    return False, detail, found, nops
 
 
 def replay(w):
     from vf import core
-    violated, detail, _, _ = confirm(w, core.REPO)
+    violated, detail, _, _ = run_pair(w, core.REPO)
     return violated, headline(w) + detail
